@@ -31,6 +31,9 @@ ADDR_ACQUIRE = {
     "yaml_document_initialize": (0, "nonzero"),
     "yaml_parser_load": (1, "nonzero"),
     "_vnacal_new_solve_init": (0, "notminus1"),
+    # the descriptor parser state of vnaproperty.c: on success (non-NULL anchor) the caller owns the expression list and the
+    # formatted input held in the caller-provided parser_t; on failure the callee has released them itself
+    "parse_and_descend": (0, "nonzero"),
 }
 ADDR_RELEASE = {
     "yaml_parser_delete": 0,
@@ -38,6 +41,7 @@ ADDR_RELEASE = {
     "yaml_document_delete": 0,
     "yaml_emitter_dump": 1,          # the emitter takes over and destroys the document, also on failure
     "_vnacal_new_solve_free": 0,
+    "parser_free": 0,
 }
 KIND = {"fopen": "FILE", "fdopen": "FILE", "fmemopen": "FILE", "open_memstream": "FILE"}
 
@@ -559,6 +563,7 @@ class ResTracker(Tracker):
         p = n.parent
         while p is not None and (p.k in ("ParenExpr", "ImplicitCastExpr", "CStyleCastExpr") or
                                  (p.k == "UnaryOperator" and p.op == "!") or
+                                 (p.k == "BinaryOperator" and p.op == "=" and p.kids[1].strip().id == call.id) or
                                  (p.k == "BinaryOperator" and p.op in ("==", "!="))):
             n = p
             p = p.parent
@@ -670,9 +675,11 @@ class ResTracker(Tracker):
         # result of an acquire-by-address call tested directly
         cc = c
         eq = None
-        if cc.k == "BinaryOperator" and cc.op in ("==", "!=") and cc.kids[1].strip().cv is not None:
-            eq = (cc.op, cc.kids[1].strip().cv)
+        if cc.k == "BinaryOperator" and cc.op in ("==", "!=") and (cc.kids[1].strip().cv is not None or is_null(cc.kids[1])):
+            eq = (cc.op, cc.kids[1].strip().cv if cc.kids[1].strip().cv is not None else 0)
             cc = cc.kids[0].strip()
+            if cc.k == "BinaryOperator" and cc.op == "=":        # (anchor = acquire(&obj, ...)) == NULL
+                cc = cc.kids[1].strip()
         if cc.k == "CallExpr":
             rd = dict(res)
             stt = rd.get(cc.id)
